@@ -56,9 +56,9 @@ CLAIMED = {
    "Stepping mode (no threads): the threaded drop needs the loom engine (not built). Reindex-pending drops need the growth family (C09, not built).",
    "DESIGN.md §4 C03"),
  "C12": ("crashmc", "fault_enumeration",
-   "exhaustive power-loss enumeration on recorded I/O traces: crash point x subset of unsynced 4 KiB pages of mapped files x length of the unsynced tail of appended files, recovery + prefix oracle with durability lower bound",
+   "exhaustive power-loss enumeration on recorded I/O traces (of every edge of the bounded state graph, and of every loom schedule of the real commit/cleanup workers): crash point x subset of unsynced 4 KiB pages of mapped files x length of the unsynced tail of appended files, recovery + prefix oracle with durability lower bound",
    "For every crash point of every edge of the bounded state graph (see C02) the shadow file system keeps, per file, the content as of its last sync; every page dirtied since either reaches the disk or not (all subsets up to 8-10 dirty pages, else all subsets with <= 2 stale or <= 2 fresh pages) and the unsynced log tail is cut at synced length / field boundaries / full (every length in the thorough scenario). Each distinct image is recovered: it must equal S_j with j >= commits whose log was synced (taken from the fdatasync operations observed in the trace). Both 'equivalently' clauses are decided by this: a table page dirtied before its record's log is durable, or a log truncated/reused while a page it feeds is dirty, yields a failing image.",
-   "Fault model as stated by the property (pages of mapped files, prefix of appended bytes; namespace operations and truncations durable in program order). sync_wal = sync_data = true. Bounds per scenario.",
+   "Fault model as stated by the property (pages of mapped files, prefix of appended bytes; namespace operations and truncations durable in program order). sync_wal = sync_data = true. Bounds per scenario. `./check C12` runs two parts side by side: the sequential part (evidence C12.json) and the threaded part (evidence C12-loom.json): the real commit and cleanup worker loops under loom (preemption bound 1-3) on a backlog of 2-4 flushed log files; the file operations of every schedule are recorded, every distinct operation sequence is judged like a crash trace (power-loss images at every operation boundary and before every sync). An msync makes exactly the pages of its byte range durable.",
    "DESIGN.md §3 E2 family 3, §4 C12"),
  "C13": ("crashmc-logdamage", "fault_enumeration",
    "exhaustive mutation of the log files of recorded crash images (every truncation length, bit flips, windows, tails, file deletion/swap/duplication, short files, stale generations) with recovery + bounded-prefix oracle",
@@ -68,7 +68,7 @@ CLAIMED = {
  "C16": ("faultmc", "fault_enumeration",
    "exhaustive fault-index enumeration: for every edge of the bounded state graph and every j, persistent failure of all file operations from the j-th of that step on (libc interposition) and of all I/O sites from the j-th on (the crate's own injector)",
    "Every (state, event in {P,R,F,E,K,reopen}, injector, j) is executed from scratch: no panic; a failed syscall makes the step return an error (never Ok); the stored background error refuses later commits without trace; reads equal the committed state; drop under the fault terminates; after the fault is gone reopen shows S_k with k >= commits synced before the failure.",
-   "Stepping mode (no threads). Failures are persistent (as quantified). A power loss following an I/O failure is not combined here.",
+   "`./check C16` runs two parts side by side: the stepping part (evidence C16.json) and the threaded part (evidence C16-loom.json: the real commit and cleanup workers under loom on a backlog of 3 flushed log files, every file operation from the j-th of the threaded phase on fails, one exploration per j; all threads must terminate, a later commit returns, reads stay correct, reopen shows all synced commits). Failures are persistent (as quantified). A power loss following an I/O failure is combined under C12. The index-growth scenario follows one pipeline order and caps the crate's own injector at its first 10 (quick) / 48 (thorough) sites per step (its sites include every in-memory read of the reindex scan); the syscall injector is never capped.",
    "DESIGN.md §3 E2 family 5, §4 C16"),
  "C09": ("seqmc+crashmc", "model_checking",
    "explicit-state breadth-first search over the real Db with adversarial key families (identity hashing) and reindex batches as events; crash-point enumeration over growth edges",
@@ -97,7 +97,7 @@ CLAIMED = {
    "DESIGN.md §3 E3, §4 C05"),
  "C15": ("loommc", "model_checking",
    "stateless model checking under loom of the four real worker loops (run as loom threads through a hook) with scaled-down queue thresholds; deadlock = violation; reopen oracle",
-   "Client commits (below / above the scaled commit-queue and log-queue limits, empty transaction, second and third client), shutdown at whatever point the schedule reached, join, drop, reopen without threads: every accepted commit present. Subsets of workers model arbitrarily slow workers. Liveness scenarios: after a commit the client only watches the queue; it must drain without further client activity. loom reports any schedule in which a thread blocks forever (commit never returns, worker never exits, join hangs).",
+   "Client commits (below / above the scaled commit-queue and log-queue limits, empty transaction, second and third client), shutdown at whatever point the schedule reached, join, drop, reopen without threads: every accepted commit present. Subsets of workers model arbitrarily slow workers. Liveness scenarios: after a commit the client only watches the queue; it must drain without further client activity; pipeline-liveness scenarios require every record to be enacted by the workers alone (no shutdown); backlog scenarios start the commit and cleanup workers on 3-5 flushed log files (the number of files awaiting cleanup passes its limit). loom reports any schedule in which a thread blocks forever (commit never returns, worker never exits, join hangs).",
    "Scaled thresholds (commit queue 64 B, log queue 512 B, 1 dirty log file) exercise the production code paths with smaller numbers. Quick tier: the all-worker scenarios hit the 40 s wall cap (reported, exhaustive=false); worker-subset, liveness and throttling scenarios complete. No spurious wake-ups.",
    "DESIGN.md §3 E3, §4 C15"),
  "C14": ("seqmc+parser", "model_checking",
@@ -150,7 +150,7 @@ def main():
             {"name": "admin", "path": "/verif/mc/src/props/c17.rs", "serves_properties": ["C17"], "kind_free_text": "exhaustive sweeps over option combinations, layouts and administration calls"},
             {"name": "handles", "path": "/verif/mc/src/props/c18.rs", "serves_properties": ["C18"], "kind_free_text": "exhaustive open/drop sequences, second-opener injection at I/O boundaries, holder process killed at every recovery step"},
             {"name": "migrate", "path": "/verif/mc/src/props/c20.rs", "serves_properties": ["C20"], "kind_free_text": "exhaustive sweep over migration configurations through the real migrate()"},
-            {"name": "loommc", "path": "/verif/mc-loom", "serves_properties": ["C05", "C15"], "kind_free_text": "loom (vendored 0.5.6 with MAX_THREADS 8) over the real crate built with its loom feature; fresh OS thread per execution stepped through loom's checkpoint file"},
+            {"name": "loommc", "path": "/verif/mc-loom", "serves_properties": ["C05", "C11", "C12", "C15", "C16"], "kind_free_text": "loom (vendored 0.5.6 with MAX_THREADS 8) over the real crate built with its loom feature; fresh OS thread per execution stepped through loom's checkpoint file"},
             {"name": "seqmc", "path": "/verif/mc", "serves_properties": sorted([k for k, v in CLAIMED.items() if "seqmc" in v[0]]),
              "kind_free_text": "bounded exhaustive graph search over histories x pipeline-stage schedules of the real Db in stepping mode, reference models, pipeline model PM in lock-step"},
         ],
